@@ -11,7 +11,9 @@ import (
 	"os"
 	"strings"
 	"syscall"
+	"time"
 
+	"rare/pkg/extractor/batchers"
 	"rare/pkg/readahead"
 	. "verifh/lib"
 )
@@ -23,6 +25,8 @@ type c04Step struct {
 type c04In struct {
 	Buffered  bool      `json:"buffered,omitempty"`   // BufferedReadAhead (buf_size = maxBufLen > 1) instead of ImmediateReadAhead
 	NoHandler bool      `json:"no_handler,omitempty"` // no OnError callback is registered (a read error must still end the stream)
+	Batcher   int       `json:"batcher,omitempty"`    // 1: the file readers' loop (syncReaderToBatcher), 2: the time-flushing loop of OpenReaderToChan; buf_size is then the batchers' own
+	BatchSize int       `json:"batch_size,omitempty"`
 	BufSize   int       `json:"buf_size"`
 	Script    []c04Step `json:"script"`
 	Stream    string    `json:"stream_hex"`
@@ -61,11 +65,17 @@ type scriptReader struct {
 	done      bool
 	rae       int
 	reads     int
+	soft      bool
+	runaway   bool
 }
 
 func (r *scriptReader) Read(p []byte) (int, error) {
 	r.reads++
 	if r.reads > len(r.script)+len(r.stream)+10000 {
+		if r.soft { // called on a goroutine of the code under test: a panic would take the harness down
+			r.runaway = true
+			return 0, io.EOF
+		}
 		panic("runaway reader loop")
 	}
 	if r.done {
@@ -106,6 +116,9 @@ func c04Run(in c04In) (out c04Out) {
 			out = c04Out{Completed: false, Note: fmt.Sprint(e)}
 		}
 	}()
+	if in.Batcher != 0 {
+		return c04RunBatcher(in, rd)
+	}
 	var ra readahead.Scanner
 	nerr := 0
 	if in.Buffered {
@@ -136,6 +149,41 @@ func c04Run(in c04In) (out c04Out) {
 		out.End = append(out.End, hex.EncodeToString(toks[i]))
 	}
 	out.Nerr, out.Rae, out.Del = nerr, rd.rae, hex.EncodeToString(rd.delivered)
+	return
+}
+
+type closer struct{ io.Reader }
+
+func (closer) Close() error { return nil }
+
+// the two scan loops of pkg/extractor/batchers over the same scripted reader: what they put into their
+// batches, in order, is what the scanner handed out (held until the end, like the workers hold a batch)
+func c04RunBatcher(in c04In, rd *scriptReader) (out c04Out) {
+	var b *batchers.Batcher
+	rd.soft = true
+	if in.Batcher == 1 {
+		b = batchers.VerifSyncReader("src", rd, in.BatchSize, 1+in.BatchSize%3)
+	} else {
+		b = batchers.OpenReaderToChan("src", closer{rd}, in.BatchSize, 1+in.BatchSize%3)
+	}
+	var toks, rets [][]byte
+	outcome, pv := Guarded(20*time.Second, func() {
+		for batch := range b.BatchChan() {
+			for _, l := range batch.Batch {
+				toks = append(toks, l)
+				rets = append(rets, append([]byte(nil), l...))
+			}
+		}
+	})
+	if outcome != "ok" || rd.runaway {
+		return c04Out{Completed: false, Note: fmt.Sprint(outcome, " ", pv, " runaway reader loop: ", rd.runaway)}
+	}
+	out.Completed = true
+	for i := range toks {
+		out.Ret = append(out.Ret, hex.EncodeToString(rets[i]))
+		out.End = append(out.End, hex.EncodeToString(toks[i]))
+	}
+	out.Nerr, out.Rae, out.Del = b.ReadErrors(), rd.rae, hex.EncodeToString(rd.delivered)
 	return
 }
 
@@ -382,6 +430,38 @@ func c04Gen(r *Rng, n int, tier string) []Case {
 	} else {
 		cases = append(cases, c04Exhaustive(3)...)
 	}
+	// one line far longer than the buffer (every power of two up to 4096 x bufSize, and the byte before /
+	// after): "for every stream and every buffer size" has no upper bound on the length of a line
+	for _, bs := range []int{1, 2, 3} {
+		for _, f := range []int{256, 512, 1024, 2048, 4096} {
+			for _, d := range []int{-1, 0, 1} {
+				if tier != "thorough" && !(f == 1024 || (f == 2048 && d == 0 && bs == 1)) {
+					continue // quick tier: around 1024 x bufSize, and one case of 2048
+				}
+				ln := f*bs + d
+				var stream []byte
+				stream = append(stream, "x\n"...)
+				for i := 0; i < ln; i++ {
+					stream = append(stream, byte('a'+i%23))
+				}
+				switch (f + d + bs) % 3 {
+				case 0:
+					stream = append(stream, "\r\ntail"...) // CRLF after the long line, unterminated rest
+				case 1:
+					stream = append(stream, "\nnext\n"...)
+				} // case 2: the long line is the unterminated tail
+				var sc []c04Step
+				for pos := 0; pos < len(stream)+8; pos += bs {
+					sc = append(sc, c04Step{bs, 0})
+				}
+				in := c04In{BufSize: bs, Script: sc, Stream: hex.EncodeToString(stream)}
+				if (f+d)%2 == 0 && bs >= 2 {
+					in.Buffered = true
+				}
+				cases = append(cases, c04Case(in))
+			}
+		}
+	}
 	base := len(cases)
 	for len(cases) < base+n {
 		bs := Pick(r, c04BufSizes)
@@ -413,6 +493,11 @@ func c04Gen(r *Rng, n int, tier string) []Case {
 			}
 		}
 		in.NoHandler = r.Chance(1, 5)
+		if r.Chance(1, 6) && ln < 3000 {
+			// the same stream and script through the batchers' loops (their buffer is ReadAheadBufferSize)
+			in.Buffered, in.NoHandler = false, false
+			in.Batcher, in.BatchSize, in.BufSize = 1+r.Intn(2), Pick(r, []int{1, 2, 3, 7, 1000}), batchers.ReadAheadBufferSize
+		}
 		cases = append(cases, c04Case(in))
 	}
 	return cases
